@@ -8,6 +8,7 @@ cond (prefix): `A col op const` | `O` | `& x y` | `| x y`.
 import OG.C20.Model
 import OG.C20.Skip
 import OG.C20.SkipIdx
+import OG.C20.TimeCluster
 
 namespace OG.C20
 
@@ -175,11 +176,15 @@ def condFails (c : BCond) (i : SkInfo) : Bool :=
   let inSchema : Nat → Bool := fun n => i.fields.contains n || (i.kind == .fullText && n == fieldLog)
   (convElems inSchema (toRPN c)).isNone
 
-/-- the full-text reader tokenises every element of its condition in `ReInit`: a phrase that ends
-inside a multi-byte sequence panics there (the plain reader only when a fragment is asked). -/
+/-- both bloom readers tokenise in `ReInit` (`getAllHashes` in `NewLineFilterReader` /
+`NewMultiFiledLineFilterReader`): a phrase that ends inside a multi-byte sequence panics there,
+whether or not a fragment is asked afterwards — the full-text reader for every element of its
+condition, the plain reader for the match-phrase atoms on a key of `splitMap`. -/
 def ftPanics (c : BCond) (i : SkInfo) : Bool :=
-  i.kind == .fullText && (atomsOf c).any fun a =>
-    (i.fields.contains a.1 || a.1 == fieldLog) && (readerLookups contentSplit a.2.v).isNone
+  (i.kind == .fullText && (atomsOf c).any fun a =>
+    (i.fields.contains a.1 || a.1 == fieldLog) && (readerLookups contentSplit a.2.v).isNone) ||
+  (i.kind == .bloom && (atomsOf c).any fun a =>
+    a.2.op == .mp && (bfSplitKeys i.fields).contains a.1 && (readerLookups contentSplit a.2.v).isNone)
 
 /-- `CreateSKFileReaders`, then per reader `ReInit` + `Scan`, as the harness (and the engine) does. -/
 def runRel (wsp : Nat → Bool) (rel : Relation) (allCols : List Nat) (c : BCond) (segs : List Seg) (mm : Nat)
@@ -248,6 +253,24 @@ def stepSkip : List String → Option String
     let k ← parseKind kind
     if !rest.isEmpty || rpf == 0 then none
     else some (runRel wsp [⟨k, k.stdName, List.range nIdx⟩] (List.range (nIdx + 1)) c segs (minMarks rpf minRows) rgs)
+  | ["tcw", d, tmin, tmax, ts] => do
+    let d ← d.toInt?
+    let tmin ← tmin.toInt?
+    let tmax ← tmax.toInt?
+    let ts ← (ts.splitOn ",").mapM (·.toInt?)
+    if d ≤ 0 then none
+    else
+      let lo := OG.Gen.C20.tcWindow tmin d
+      let hi := OG.Gen.C20.tcWindow tmax d
+      let shape :=
+        if lo == hi then "eq"
+        else if lo != OG.Gen.C20.tcMinTime && hi != OG.Gen.C20.tcMaxTime then "both"
+        else if lo != OG.Gen.C20.tcMinTime then "ge"
+        else if hi != OG.Gen.C20.tcMaxTime then "le"
+        else "none"
+      let cls := ts.map (OG.C20.TC.clusterOf · d)
+      some (s!"tc {lo} {hi} {shape} " ++ ",".intercalate (cls.map toString) ++ " " ++
+        String.join (cls.map fun x => if OG.C20.TC.tcCond lo hi x then "1" else "0"))
   | "bloomv" :: split :: mode :: nvert :: minRows :: rgs :: nIdx :: blocks :: cond => do
     -- detached layout, one row per block, every block has a filter (the first `nvert` in a
     -- vertical group): answered as the attached layout (`bfMayBeDetached`, `detached_bloom_sound`)
